@@ -13,31 +13,51 @@ import (
 // the methods of its own node interface so the store's type switches see
 // exactly one kind.
 
-type sElem struct{ space, local string }
+// The scripted node types are deliberately NOT comparable (a slice field): a user-written Parser may hand out
+// any types that implement the node interfaces, and comparing two of them with == would panic.
+type sElem struct {
+	space, local string
+	pad          []int
+}
 
 func (e sElem) Space() string { return e.space }
 func (e sElem) Local() string { return e.local }
 
-type sAttr struct{ space, local, value string }
+type sAttr struct {
+	space, local, value string
+	pad                 []int
+}
 
 func (a sAttr) Space() string          { return a.space }
 func (a sAttr) Local() string          { return a.local }
 func (a sAttr) AttributeValue() string { return a.value }
 
-type sNS struct{ prefix, value string }
+type sNS struct {
+	prefix, value string
+	pad           []int
+}
 
 func (n sNS) Prefix() string         { return n.prefix }
 func (n sNS) NamespaceValue() string { return n.value }
 
-type sText struct{ value string }
+type sText struct {
+	value string
+	pad   []int
+}
 
 func (t sText) CharDataValue() string { return t.value }
 
-type sComment struct{ value string }
+type sComment struct {
+	value string
+	pad   []int
+}
 
 func (c sComment) CommentValue() string { return c.value }
 
-type sPI struct{ target, value string }
+type sPI struct {
+	target, value string
+	pad           []int
+}
 
 func (p sPI) Target() string        { return p.target }
 func (p sPI) ProcInstValue() string { return p.value }
@@ -58,19 +78,19 @@ func (s *Script) Pull() (node.Node, bool, error) {
 	s.i++
 	switch e.K {
 	case "S":
-		return sElem{e.Space, e.Local}, false, nil
+		return sElem{space: e.Space, local: e.Local}, false, nil
 	case "E":
 		return nil, true, nil
 	case "N":
-		return sNS{e.Local, e.Value}, false, nil
+		return sNS{prefix: e.Local, value: e.Value}, false, nil
 	case "A":
-		return sAttr{e.Space, e.Local, e.Value}, false, nil
+		return sAttr{space: e.Space, local: e.Local, value: e.Value}, false, nil
 	case "T":
-		return sText{e.Value}, false, nil
+		return sText{value: e.Value}, false, nil
 	case "C":
-		return sComment{e.Value}, false, nil
+		return sComment{value: e.Value}, false, nil
 	case "P":
-		return sPI{e.Local, e.Value}, false, nil
+		return sPI{target: e.Local, value: e.Value}, false, nil
 	case "X":
 		return nil, false, ErrScripted
 	}
@@ -253,7 +273,12 @@ func descCursors(cs []store.Cursor) []string {
 
 // BuildStore runs the event list through the scripted parser into the
 // in-memory store.
-func BuildStore(events []Event) (store.Cursor, error) {
-	c, err := store.CreateInMemory(&Script{Events: events})
+func BuildStore(events []Event) (c store.Cursor, err error) {
+	defer func() {
+		if r := recover(); r != nil {
+			c, err = nil, fmt.Errorf("CreateInMemory PANICKED on the event stream: %v", r)
+		}
+	}()
+	c, err = store.CreateInMemory(&Script{Events: events})
 	return c, err
 }
